@@ -10,7 +10,7 @@ EXTENDS Integers, Sequences, FiniteSets, TLC
 HF == INSTANCE HproseFormat
 
 \* e.gshape / e.wshape say what got / want are: "bytes" (a hex string), "graph" or "decoded" ([v, err])
-SameGraph(a, b) == HF!SameValue(a, b, {}) /\ HF!SameValue(b, a, {})
+SameGraph(a, b) == HF!SameValue(a, b, {"same-kinds"}) /\ HF!SameValue(b, a, {"same-kinds"})
 
 C14Why(e) ==
     IF e.got = e.want THEN ""
